@@ -16,8 +16,9 @@ A WAL is a byte list. `Reader.ReadHeader`:
   pgno = 0 → ErrZeroPageNumber.
 `scan`: frames are read to the first io.EOF; `waitingForCommit` is decided by the LAST
 frame read; the two maps (`txFrames`, `frames`) + sort by offset produce, for each page,
-its last frame, in file order — modelled by its specification `compactFrames` (the
-correspondence run compares the output byte for byte).
+its last frame, in file order: `scanLiteral` is that algorithm (maps as functions from page
+number to frame index); `compactFrames` is its specification and `Lemmas/Wal` proves
+`scanLiteral = compactFrames` whenever the list does not end in an open transaction.
 `Writer.WriteTo`: header copied (version constant), every frame re-checksummed from
 the header's checksum.
 
@@ -142,6 +143,33 @@ def openTx (fs : List Frame) : Bool :=
   | none => false
   | some f => f.commit == 0
 
+
+/-! literal `scan`: two Go maps keyed by page number (as functions), values = frame index
+(the file offset is `start + index * frameSize`, so index order is offset order) -/
+
+def upd (m : Nat → Option Nat) (k v : Nat) : Nat → Option Nat := fun p => if p = k then some v else m p
+
+/-- `maps.Copy(frames, txFrames)` -/
+def mapsCopy (frames tx : Nat → Option Nat) : Nat → Option Nat :=
+  fun p => match tx p with | some v => some v | none => frames p
+
+def scanLoop : List Frame → Nat → (Nat → Option Nat) → (Nat → Option Nat) → (Nat → Option Nat)
+  | [], _, _, frames => frames
+  | f :: rest, i, tx, frames =>
+    let tx' := upd tx f.pgno i
+    if f.commit == 0 then scanLoop rest (i + 1) tx' frames
+    else scanLoop rest (i + 1) (fun _ => none) (mapsCopy frames tx')
+
+/-- keep the frames whose index is a value of the final map, in index (= offset) order:
+what collecting the map's values and `sort.Sort` by Offset produces -/
+def keepValues (m : Nat → Option Nat) : List Frame → Nat → List Frame
+  | [], _ => []
+  | f :: rest, i => if m f.pgno = some i then f :: keepValues m rest (i + 1) else keepValues m rest (i + 1)
+
+def scanLiteral (fs : List Frame) : List Frame :=
+  keepValues (scanLoop fs 0 (fun _ => none) (fun _ => none)) fs 0
+
+
 /-! ### writer -/
 
 def serializeHeader (h : Header) : Bytes :=
@@ -203,7 +231,7 @@ def compact (full : Bool) (start : Nat) (wal : Bytes) : CompRes :=
       | (fs, .eof) =>
         if openTx fs then .openTx
         else
-          let kept := compactFrames fs
+          let kept := scanLiteral fs
           match writeCheck h.pageSize kept with
           | some e => e
           | none => .ok (serialize h kept)
